@@ -27,19 +27,53 @@ from vf.core import Collector, Prop, shard_rng
 PROBE = ("# **Bold Heading**\n\nThis is sentence one of the probe document, it is long enough to wrap at forty. This is \"sentence two\" and it's "
          "followed by dots... like these.\n\n- tight one\n- tight two\n\n1. loose one\n\n2. loose two\n")
 DEFAULTS = {"width": 88, "semantic": False, "cleanups": False, "smartquotes": False, "ellipses": False, "list_spacing": "preserve",
-            "extend_include": [], "exclude": None, "extend_exclude": [], "respect_gitignore": True, "force_exclude": False,
+            "include": ["*.md"], "extend_include": [], "exclude": None, "extend_exclude": [], "respect_gitignore": True, "force_exclude": False,
             "files_max_size": 1048576}
 FORMAT = ["width", "semantic", "cleanups", "smartquotes", "ellipses", "list_spacing"]
-DISCOVER = ["extend_include", "exclude", "extend_exclude", "respect_gitignore", "force_exclude", "files_max_size"]
+DISCOVER = ["include", "extend_include", "exclude", "extend_exclude", "respect_gitignore", "force_exclude", "files_max_size"]
 AUTO_LOCKED = {"semantic", "cleanups", "smartquotes", "ellipses"}
 ALT = {"width": 40, "semantic": True, "cleanups": True, "smartquotes": True, "ellipses": True, "list_spacing": "loose",
-       "extend_include": ["*.mdx"], "exclude": ["drafts/"], "extend_exclude": ["drafts/"], "respect_gitignore": False,
+       "include": ["*.mdx"], "extend_include": ["*.mdx"], "exclude": ["drafts/"], "extend_exclude": ["drafts/"], "respect_gitignore": False,
        "force_exclude": True, "files_max_size": 50}
 ALT2 = {"width": 60, "semantic": True, "cleanups": True, "smartquotes": True, "ellipses": True, "list_spacing": "tight",
-        "extend_include": ["*.txt"], "exclude": ["other/"], "extend_exclude": ["other/"], "respect_gitignore": False,
+        "include": ["*.txt"], "extend_include": ["*.txt"], "exclude": ["other/"], "extend_exclude": ["other/"], "respect_gitignore": False,
         "force_exclude": True, "files_max_size": 0}
 KEBAB = {"list_spacing": "list-spacing", "extend_include": "extend-include", "extend_exclude": "extend-exclude",
          "files_max_size": "files-max-size", "respect_gitignore": "respect-gitignore", "force_exclude": "force-exclude"}
+
+
+def respell(argv, how):
+    """Other spellings argparse accepts for the same flags: --opt=value, an unambiguous prefix of the long option, -wN."""
+    if not argv or how == "canonical":
+        return argv
+    out = []
+    i = 0
+    while i < len(argv):
+        a = argv[i]
+        val = argv[i + 1] if i + 1 < len(argv) and not argv[i + 1].startswith("-") else None
+        if a == "-w":
+            a = "--width"
+        if how == "glued" and argv[i] == "-w" and val is not None:
+            out.append("-w" + val)
+            i += 2
+            continue
+        if how == "prefix" and a.startswith("--"):
+            a = PREFIX.get(a, a)
+        if how == "equals" and val is not None:
+            out.append(a + "=" + val)
+            i += 2
+            continue
+        out.append(a)
+        if val is not None:
+            out.append(val)
+            i += 1
+        i += 1
+    return out
+
+
+PREFIX = {"--width": "--wid", "--semantic": "--sem", "--cleanups": "--clean", "--smartquotes": "--smartq", "--ellipses": "--ell",
+          "--list-spacing": "--list-s", "--files-max-size": "--files-max", "--extend-exclude": "--extend-e", "--extend-include": "--extend-i",
+          "--no-respect-gitignore": "--no-r", "--force-exclude": "--force", "--exclude": "--excl"}
 
 
 def flag_argv(name, value):
@@ -123,7 +157,7 @@ def effective(cli: dict, auto: bool, config: dict | None) -> dict:
 
 class C16(Prop):
     id = "C16"
-    rule = ("cases: every one of the 12 settings x {flag passed with a non-default value, passed with its default value, not passed} x "
+    rule = ("cases: every one of the 13 settings (include is config-only) x {flag passed with a non-default value, passed with its default value, not passed; spelled canonically, as --opt=value, as an unambiguous prefix, as -wN} x "
             "{config sets it, does not} x {--auto, not} with a random config kind (.flowmark.toml / flowmark.toml / pyproject.toml), "
             "spelling (flat / sectioned, kebab / snake) and location (cwd / parent / grandparent); all ordered combinations of config "
             "files in cwd and parent for the search order; every accepted key for 'has an effect'. Non-trivial: the effective value "
@@ -148,7 +182,7 @@ class C16(Prop):
                             yield {"kind": "setting", "setting": s, "flag": flag, "config": cfg, "auto": auto,
                                    "cfg_kind": r.choice([".flowmark.toml", "flowmark.toml", "pyproject.toml"]), "sectioned": r.random() < 0.5,
                                    "kebab": r.random() < 0.5, "where": r.choice(["cwd", "parent", "grandparent"]),
-                                   "extra_cfg": r.random() < 0.5}
+                                   "extra_cfg": r.random() < 0.5, "spelling": r.choice(["canonical", "canonical", "equals", "prefix", "glued"])}
         kinds = [None, ".flowmark.toml", "flowmark.toml", "pyproject.toml", "pyproject-nosection"]
         j = 0
         for a in kinds:
@@ -264,7 +298,8 @@ class C16(Prop):
                 if a is None:
                     col.count("flag_value_not_spellable_on_cli")
                     return
-                flags += a
+                flags += respell(a, case.get("spelling", "canonical"))
+                col.hist("flag_spelling", case.get("spelling", "canonical"))
                 cli_vals[s] = v
             config = None
             if case["config"] or case["extra_cfg"]:
